@@ -3,8 +3,7 @@
 set -e
 cd "$(dirname "$0")"
 export GOFLAGS=-mod=mod GOPROXY=off GOSUMDB=off GOTOOLCHAIN=local
-if [ -d gosym ] && [ -f gosym/go.mod ]; then
-  (cd gosym && PATH=/opt/veriftools/go1.26.8/bin:$PATH go1.26.8 build -o ../bin/gosym . )
-fi
+mkdir -p bin
+(cd gosym && PATH=/opt/veriftools/go1.26.8/bin:$PATH go1.26.8 build -o ../bin/gosym . )
 python3-vt -m compileall -q vlib lirsym templates checks >/dev/null
 echo setup ok
